@@ -281,8 +281,44 @@ fn c10_watch_idle() -> Option<(String, String)> {
     r
 }
 
+/// the signal arrives while a target with 150 requesters is past its script (computing the state of a slow
+/// command output): afterwards it has far more acknowledgements to send than the queue holds and nobody relays
+/// them any more; the exit must not wait for them
+fn c10_signal_before_a_burst_of_acknowledgements() -> Option<(String, String)> {
+    let p = Proj::new("c10q");
+    let tr = p.trace.display().to_string();
+    write(&p.root.join("in.txt"), b"input");
+    write(&p.root.join("probe.sh"), format!("echo probe-start >> {tr}\nsleep 2\necho probe-end >> {tr}\necho value\n", tr = tr).as_bytes());
+    let mut y = String::from("targets:\n  all:\n    dependencies: [");
+    y += &(0..150).map(|i| format!("g{}", i)).collect::<Vec<_>>().join(", ");
+    y += "]\n";
+    for i in 0..150 {
+        y += &format!("  g{}:\n    dependencies: [x]\n", i);
+    }
+    y += &format!("  x:\n    input: [{{paths: [in.txt]}}]\n    output: [{{cmd_stdout: \"sh probe.sh\"}}]\n    build: '{}'\n", p.quick("x"));
+    p.write_yml("zinoma.yml", &y);
+    let c = p.spawn(&["all"]);
+    if !p.wait_line("probe-start", 30) {
+        let e = wait_end_kill(c);
+        p.cleanup();
+        return Some(("set-up: the output command never started".into(), e));
+    }
+    signal(&c, libc::SIGTERM);
+    let e = wait_end(c, 30);
+    let left = p.leftovers();
+    p.cleanup();
+    if e.timed_out {
+        return Some(("exit not prompt: still running 30 s after the signal".to_string(), "SIGTERM while x (150 requesters) computes the state of its output; x's script had ended".to_string()));
+    }
+    if !left.is_empty() {
+        return Some(("process left behind".to_string(), format!("{:?}", left)));
+    }
+    None
+}
+
 pub fn bind_c10(rep: &mut Report) {
     let sc: Vec<Scenario> = vec![
+        ("SIGTERM just before a burst of 150 acknowledgements", c10_signal_before_a_burst_of_acknowledgements),
         ("SIGTERM during a build", || c10_signal_during(libc::SIGTERM, yml_one_build, &["b"], "start b")),
         ("SIGINT during a build", || c10_signal_during(libc::SIGINT, yml_one_build, &["b"], "start b")),
         ("SIGTERM while a requested service runs", || c10_signal_during(libc::SIGTERM, yml_service, &["s"], "start s")),
@@ -497,16 +533,71 @@ fn c01_three_sources() -> Option<(String, String)> {
     c01_order(&root, None, &["top"], "top", &["end listed", "end implied", "end viaagg", "start svc"])
 }
 
+/// the implied dependency holds whatever was loaded first: the producer named before its consumer on the command
+/// line, and two consumers of one producer under an aggregate
+fn c01_implied_dependency_load_order() -> Option<(String, String)> {
+    let slow = |p: &Proj, n: &str| p.script(n, &format!("sleep 0.5; echo x > gen.txt; echo end {} >> {}", n, p.trace.display()));
+    let root = |p: &Proj| {
+        format!(
+            "targets:\n  gen:\n    build: '{}'\n    output: [{{paths: [gen.txt]}}]\n  app:\n    input: [gen.output]\n    build: '{}'\n  lint:\n    input: [gen.output]\n    build: '{}'\n  web:\n    input: [gen.output]\n    service: '{}'\n  check:\n    dependencies: [app, lint]\n",
+            slow(p, "gen"),
+            p.quick("app"),
+            p.quick("lint"),
+            p.forever("web")
+        )
+    };
+    for (args, tops) in [(vec!["gen", "app"], vec!["app"]), (vec!["app", "gen"], vec!["app"]), (vec!["check"], vec!["app", "lint"]), (vec!["gen", "web"], vec!["web"]), (vec!["lint", "check"], vec!["app", "lint"])] {
+        for top in tops {
+            if let Some((fp, d)) = c01_order(&root, None, &args, top, &["end gen"]) {
+                return Some((fp, format!("zinoma {:?}: {}", args, d)));
+            }
+        }
+    }
+    None
+}
+
 pub fn bind_c01(rep: &mut Report) {
     let sc: Vec<Scenario> = vec![
+        ("X.output implies the dependency whatever was requested or loaded first", c01_implied_dependency_load_order),
         ("equal target names in two projects: one listed under dependencies, the other's output taken as input", c01_same_name_two_projects),
         ("listed + implied by X.output + reached through nested aggregates (a build and a service)", c01_three_sources),
     ];
     run_scenarios(rep, "C01", sc);
 }
 
+/// every script and every command ends: so does the run, also when a `cmd_stdout` command prints far more than a
+/// pipe buffer holds (input of one target, output of another)
+fn c04_large_command_output() -> Option<(String, String)> {
+    let p = Proj::new("c04big");
+    let big = "head -c 3000000 /dev/zero | tr \\\\0 x";
+    p.write_yml(
+        "zinoma.yml",
+        &format!("targets:\n  gen:\n    input: [{{cmd_stdout: \"{big}\"}}]\n    output: [{{cmd_stdout: \"{big}; echo out\"}}]\n    build: '{}'\n  use:\n    input: [gen.output]\n    build: '{}'\n", p.quick("gen"), p.quick("use"), big = big),
+    );
+    for round in 0..2 {
+        let c = p.spawn(&["use"]);
+        let e = wait_end(c, 60);
+        if e.timed_out {
+            let tr = p.trace_lines();
+            p.cleanup();
+            return Some(("run never ends although every script and command ends".to_string(), format!("invocation {} of `zinoma use` still running after 60 s (a command resource prints 3 MB); trace {:?}", round + 1, tr)));
+        }
+        if e.code != Some(0) {
+            p.cleanup();
+            return Some(("run failed".into(), format!("{:?} {}", e.code, e.stderr.lines().rev().take(3).collect::<Vec<_>>().join(" | "))));
+        }
+    }
+    let left = p.leftovers();
+    p.cleanup();
+    if !left.is_empty() {
+        return Some(("process left behind".to_string(), format!("{:?}", left)));
+    }
+    None
+}
+
 pub fn bind_c04(rep: &mut Report) {
     let sc: Vec<Scenario> = vec![
+        ("command resources printing 3 MB", c04_large_command_output),
         ("diamond", || c04_shape(yml_diamond, &["a"], &["a", "b", "c", "d"])),
         ("dependency requested before its dependent", || c04_shape(yml_diamond, &["d", "a"], &["a", "b", "c", "d"])),
         ("dependent requested before its dependency, twice", || c04_shape(yml_diamond, &["a", "d", "a"], &["a", "b", "c", "d"])),
@@ -538,6 +629,46 @@ fn c08_outside_closure() -> Option<(String, String)> {
     };
     p.cleanup();
     r
+}
+
+/// `--clean b` on a built diamond with inputs and outputs: outputs and records of the targets outside b's closure
+/// (a and c) are neither deleted nor rewritten, and their scripts do not run
+fn c08_clean_outside_closure() -> Option<(String, String)> {
+    let p = Proj::new("c08c");
+    write(&p.root.join("in.txt"), b"input");
+    let t = |n: &str, deps: &str| format!("  {n}:\n    dependencies: [{deps}]\n    input: [{{paths: [in.txt]}}]\n    output: [{{paths: [out-{n}.txt]}}]\n    build: '{}'\n", p.script(n, &format!("echo built > out-{n}.txt; echo end {n} >> {}", p.trace.display(), n = n)), n = n, deps = deps);
+    p.write_yml("zinoma.yml", &format!("imports:\n  lib: lib\ntargets:\n{}{}{}{}", t("a", "b, c"), t("b", "d"), t("c", "d, \"lib::e\""), t("d", "")));
+    p.write_yml("lib/zinoma.yml", &format!("name: lib\ntargets:\n  e:\n    input: [{{paths: [in.txt]}}]\n    output: [{{paths: [out-e.txt]}}]\n    build: '{}'\n", p.script("e", &format!("echo built > out-e.txt; echo end e >> {}", p.trace.display()))));
+    write(&p.root.join("lib/in.txt"), b"lib input");
+    let (code, err, to) = run_to_end(&p, &["a"]);
+    if to || code != Some(0) {
+        p.cleanup();
+        return Some(("set-up: run failed".into(), format!("{:?} {}", code, err)));
+    }
+    let before = snapshot(&p.root);
+    let n0 = p.trace_lines().len();
+    let (code, err, to) = run_to_end(&p, &["--clean", "b"]);
+    let after = snapshot(&p.root);
+    let mut got: Vec<String> = p.trace_lines()[n0..].iter().filter(|l| l.starts_with("start ")).cloned().collect();
+    got.sort();
+    p.cleanup();
+    if to || code != Some(0) {
+        return Some(("run failed".into(), format!("--clean b: {:?} {}", code, err)));
+    }
+    if got != vec!["start b".to_string(), "start d".to_string()] {
+        return Some(("executed set is not the closure".to_string(), format!("zinoma --clean b executed {:?}", got)));
+    }
+    let outside = ["out-a.txt", "out-c.txt", ".zinoma/a.checksums", ".zinoma/c.checksums", "lib/out-e.txt", "lib/.zinoma/lib::e.checksums"];
+    for f in outside {
+        let k = PathBuf::from(f);
+        if before.get(&k).is_none() {
+            return Some(("set-up: expected file missing before the clean".into(), f.to_string()));
+        }
+        if after.get(&k) != before.get(&k) {
+            return Some(("a target outside the closure was cleaned or had its record touched".to_string(), format!("zinoma --clean b: {} was {}", f, if after.get(&k).is_none() { "deleted" } else { "rewritten" })));
+        }
+    }
+    None
 }
 
 /// a damaged record of a requested target is discarded; the recorded state of a target outside the closure is not touched
@@ -620,6 +751,7 @@ pub fn bind_c08(rep: &mut Report) {
         ("named root and imported project with equal target names: X.output across projects", c08_cross_project_closure),
         ("diamond, every target once", || c04_shape(yml_diamond, &["a", "a", "d"], &["a", "b", "c", "d"])),
         ("request b: only b and d run", c08_outside_closure),
+        ("--clean b: nothing outside b's closure is cleaned, touched or run", c08_clean_outside_closure),
         ("damaged record of a requested target, sibling state untouched", c08_corrupted_record_and_sibling_state),
     ];
     run_scenarios(rep, "C08", sc);
@@ -660,8 +792,44 @@ fn c07_failure(args: &'static [&'static str]) -> Option<(String, String)> {
     r
 }
 
+/// a multi-command script fails at the command that fails (zinoma runs scripts with `sh -e`): the later commands do
+/// not run, the invocation fails naming the target, the dependent does not start, nothing is recorded as done
+fn c07_failing_command_inside_a_script() -> Option<(String, String)> {
+    let p = Proj::new("c07m");
+    write(&p.root.join("in.txt"), b"input");
+    let tr = p.trace.display().to_string();
+    p.write_yml(
+        "zinoma.yml",
+        &format!("targets:\n  gen:\n    input: [{{paths: [in.txt]}}]\n    build: |\n      echo start gen >> {tr}\n      cp no-such-file.txt copy.txt\n      echo end gen >> {tr}\n  top:\n    dependencies: [gen]\n    build: '{}'\n", p.quick("top"), tr = tr),
+    );
+    for round in 0..2 {
+        let n0 = p.trace_lines().len();
+        let (code, err, to) = run_to_end(&p, &["top"]);
+        let tr: Vec<String> = p.trace_lines()[n0..].to_vec();
+        let bad = if to {
+            Some("the invocation does not end".to_string())
+        } else if code == Some(0) {
+            Some(format!("the invocation exits 0 although a command of gen's script failed; scripts {:?}", tr))
+        } else if !err.contains("gen") {
+            Some(format!("the error does not name the failing target: {}", err.lines().rev().take(3).collect::<Vec<_>>().join(" | ")))
+        } else if tr.iter().any(|l| l == "start top") {
+            Some(format!("the dependent started: {:?}", tr))
+        } else if !tr.iter().any(|l| l == "start gen") {
+            Some(format!("invocation {}: gen's script did not run again after its failure: {:?}", round + 1, tr))
+        } else {
+            None
+        };
+        if let Some(b) = bad {
+            p.cleanup();
+            return Some(("a failing command inside a multi-command script does not fail the target".to_string(), b));
+        }
+    }
+    p.cleanup();
+    None
+}
+
 pub fn bind_c07(rep: &mut Report) {
-    let sc: Vec<Scenario> = vec![("failing build below an aggregate below a build", || c07_failure(&["top"])), ("failing build below a build and a service", || c07_failure(&["both"])), ("the failing build requested directly", || c07_failure(&["bad"]))];
+    let sc: Vec<Scenario> = vec![("a multi-command script whose second command fails", c07_failing_command_inside_a_script), ("failing build below an aggregate below a build", || c07_failure(&["top"])), ("failing build below a build and a service", || c07_failure(&["both"])), ("the failing build requested directly", || c07_failure(&["bad"]))];
     run_scenarios(rep, "C07", sc);
 }
 
@@ -894,13 +1062,25 @@ fn c03_untouched_tree() -> Option<(String, String)> {
         let new: Vec<String> = p.trace_lines()[before..].iter().filter(|l| l.starts_with("start ")).cloned().collect();
         runs.push(new);
     }
-    let r = if runs[0].len() != 4 {
+    let mut r = if runs[0].len() != 4 {
         Some(("first run did not execute every target".to_string(), format!("{:?}", runs[0])))
     } else if runs[1] != vec!["start noinput".to_string()] || runs[2] != vec!["start noinput".to_string()] {
         Some(("an untouched tree was rebuilt (or a no-input target skipped)".to_string(), format!("second run {:?}, third run {:?} (expected only the target without input)", runs[1], runs[2])))
     } else {
         None
     };
+    if r.is_none() {
+        // an invocation about an unrelated target (here: --clean of the input-less one) changes nothing for the others
+        let (code, err, to) = run_to_end(&p, &["--clean", "noinput"]);
+        let before = p.trace_lines().len();
+        let (code2, err2, to2) = run_to_end(&p, &["all"]);
+        let new: Vec<String> = p.trace_lines()[before..].iter().filter(|l| l.starts_with("start ")).cloned().collect();
+        if to || to2 || code != Some(0) || code2 != Some(0) {
+            r = Some(("run failed".into(), format!("{:?} {} / {:?} {}", code, err, code2, err2)));
+        } else if new != vec!["start noinput".to_string()] {
+            r = Some(("an untouched tree was rebuilt after `--clean` of an unrelated target".to_string(), format!("zinoma --clean noinput; zinoma all executed {:?} (expected only the target without input)", new)));
+        }
+    }
     p.cleanup();
     r
 }
@@ -1207,8 +1387,68 @@ fn c06_every_resource_watched() -> Option<(String, String)> {
     r
 }
 
+/// affected services are restarted, also through another service: frontend -> backend -> gen (a build)
+fn c06_service_chain() -> Option<(String, String)> {
+    let p = Proj::new("c06s");
+    write(&p.root.join("src.txt"), b"v1");
+    let tr = p.trace.display().to_string();
+    p.write_yml(
+        "zinoma.yml",
+        &format!(
+            "targets:\n  gen:\n    input: [{{paths: [src.txt]}}]\n    build: '{}'\n  backend:\n    dependencies: [gen]\n    service: '{}'\n  frontend:\n    dependencies: [backend]\n    service: '{}'\n",
+            p.script("gen", &format!("echo \"end gen $(cat src.txt)\" >> {}", tr)),
+            p.forever("backend"),
+            p.forever("frontend")
+        ),
+    );
+    let mut c = p.spawn(&["--watch", "frontend"]);
+    let fail = |c: Child, p: &Proj, fp: String, d: String| -> Option<(String, String)> {
+        let e = wait_end_kill(c);
+        let r = Some((fp, format!("{} ; trace {:?} ; stderr tail: {}", d, p.trace_lines(), e)));
+        p.cleanup();
+        r
+    };
+    if !p.wait_line("start frontend", 30) {
+        return fail(c, &p, "watch mode did not bring the tree up to date".into(), String::new());
+    }
+    let count = |p: &Proj, l: &str| p.trace_lines().iter().filter(|x| *x == l).count();
+    for v in ["v2", "v3"] {
+        std::thread::sleep(Duration::from_millis(500));
+        if !alive(&mut c) {
+            return fail(c, &p, "watch run ended by itself".into(), String::new());
+        }
+        let (b0, f0) = (count(&p, "start backend"), count(&p, "start frontend"));
+        write(&p.root.join("src.txt"), v.as_bytes());
+        if !p.wait_line(&format!("end gen {}", v), 30) {
+            return fail(c, &p, "a change was never rebuilt".into(), format!("src.txt = {}", v));
+        }
+        let t0 = Instant::now();
+        while (count(&p, "start backend") == b0 || count(&p, "start frontend") == f0) && t0.elapsed() < Duration::from_secs(15) {
+            std::thread::sleep(Duration::from_millis(20));
+        }
+        if count(&p, "start backend") == b0 {
+            return fail(c, &p, "an affected service was not restarted: directly above the rebuilt target".into(), format!("src.txt = {}", v));
+        }
+        if count(&p, "start frontend") == f0 {
+            return fail(c, &p, "an affected service was not restarted: above another restarted service".into(), format!("src.txt = {}", v));
+        }
+    }
+    signal(&c, libc::SIGINT);
+    let e = wait_end(c, 15);
+    let left = p.leftovers();
+    let r = if e.timed_out {
+        Some(("SIGINT not honoured".to_string(), String::new()))
+    } else if !left.is_empty() {
+        Some(("process left behind".to_string(), format!("{:?}", left)))
+    } else {
+        None
+    };
+    p.cleanup();
+    r
+}
+
 pub fn bind_c06(rep: &mut Report) {
-    let sc: Vec<Scenario> = vec![("producer->consumer, real watcher: clean tree, edit while idle, edit during a build, no rebuild loop", c06_watch_real), ("real watcher: a change under each of several declared resources (same filter, several paths, own filter, inherited outputs; build and service)", c06_every_resource_watched)];
+    let sc: Vec<Scenario> = vec![("producer->consumer, real watcher: clean tree, edit while idle, edit during a build, no rebuild loop", c06_watch_real), ("real watcher: a change under each of several declared resources (same filter, several paths, own filter, inherited outputs; build and service)", c06_every_resource_watched), ("real watcher: a rebuilt target restarts the service above it and the service above that one", c06_service_chain)];
     run_scenarios(rep, "C06", sc);
 }
 
